@@ -7,6 +7,7 @@ Without an active simulation it forwards to the real ``concurrent.futures``.
 from __future__ import annotations
 
 import concurrent.futures as _real
+import concurrent.futures._base as _real_base
 import concurrent.futures.process as _real_process
 import pickle
 from collections import deque
@@ -393,14 +394,29 @@ def sim_as_completed(fs, timeout=None):
 
 
 def sim_wait(fs, timeout=None, return_when="ALL_COMPLETED"):
+    """concurrent.futures.wait: timeout=0 is a non-blocking snapshot; a positive timeout either elapses first or
+    not (there is no simulated clock in the pools: the aux stream decides); None blocks until the condition holds."""
     sim = kernel.ACTIVE
     fs = list(fs)
-    if return_when == "FIRST_COMPLETED":
-        sim.block(lambda: any(f.done() for f in fs), "wait")
+    if return_when == "FIRST_EXCEPTION":
+        cond = lambda: all(f.done() for f in fs) or any(f.done() and f._exception is not None for f in fs)
+    elif return_when == "FIRST_COMPLETED":
+        cond = lambda: any(f.done() for f in fs)
     else:
-        sim.block(lambda: all(f.done() for f in fs), "wait")
+        cond = lambda: all(f.done() for f in fs)
+    sim.event("wait", f"{len(fs)}:{timeout}")
+    if timeout is None:
+        sim.block(cond, "wait")
+    elif timeout > 0:
+        sim.yield_point("wait")
+        if not cond() and sim.rng_aux.random() < 0.5:
+            sim.block(cond, "wait")
+        else:
+            sim.count("wait_timeouts")
+    else:
+        sim.count("wait_snapshots")
     done = {f for f in fs if f.done()}
-    return _real.DoneAndNotDoneFutures(done, set(fs) - done)
+    return _real_base.DoneAndNotDoneFutures(done, set(fs) - done)
 
 
 class _Namespace:
